@@ -44,9 +44,9 @@ Bytes sealV1(unsigned tag, const Header &h, const Tlv &payload, const Bytes &key
 }
 Tlv aggrRespPayload(int version, uint64_t reqId, bool hasStatus, uint64_t status, const std::string &errMsg, const Sig *sig, uint64_t requestLevel) {
     Tlv t(version == 1 ? 0x202 : 0x02); t.nested = true; t.kids.push_back(Tlv::u64(0x01, reqId)); if (hasStatus) t.kids.push_back(Tlv::u64(0x04, status)); if (!errMsg.empty()) t.kids.push_back(Tlv::str(0x05, errMsg));
-    if (sig) { bool first = true;
-        for (auto &c : sig->chains) { AggChain cc = c; if (first && !cc.links.empty()) { // the reply's first link carries the correction relative to the requested level
-                cc.links[0].corr = cc.links[0].corr >= requestLevel ? cc.links[0].corr - requestLevel : 0; } first = false; t.kids.push_back(cc.toTlv()); }
+    if (sig) { // chains[0] is the lowest chain; its first link carries the correction relative to the requested level. The chains are written in sig->order when given.
+        std::vector<size_t> ord; if (sig->order.size() == sig->chains.size()) ord = sig->order; else for (size_t i = 0; i < sig->chains.size(); i++) ord.push_back(i);
+        for (size_t i : ord) { AggChain cc = sig->chains[i]; if (i == 0 && !cc.links.empty()) cc.links[0].corr = cc.links[0].corr >= requestLevel ? cc.links[0].corr - requestLevel : 0; t.kids.push_back(cc.toTlv()); }
         if (sig->hasCal) t.kids.push_back(sig->cal.toTlv()); if (sig->hasAuth) t.kids.push_back(sig->auth.toTlv()); }
     return t;
 }
